@@ -101,7 +101,16 @@ func (p *c09) Init(tier string) {
 			return map[string]any{"a": []any{[]any{[]any{[]any{1.0}, []any{2.0, 3.0}}}, []any{[]any{[]any{4.0}}}}}
 		},
 	}
-	p.dnames = []string{"scalars", "nested-objects", "array-of-objects", "2d", "2d-of-objects-ragged", "empty", "ragged-with-empty", "scalar-where-array-expected", "3d", "objects-with-arrays", "spare-capacity", "nulls", "4d"}
+	p.docs = append(p.docs,
+		// whole numbers at and beyond 2^53 (still inside the int64 range), numeric text with an exponent
+		func() any {
+			return map[string]any{"a": 9007199254740992.0, "b": "1e18", "c": 1e18}
+		},
+		func() any {
+			return map[string]any{"a": []any{map[string]any{"a": -9007199254740992.0, "b": "9007199254740993"}, map[string]any{"a": 1e18, "b": "-0.5e1"}, map[string]any{"a": 1152921504606846976.0}}}
+		})
+	p.dnames = []string{"big-numbers", "big-numbers-in-array", "scalars", "nested-objects", "array-of-objects", "2d", "2d-of-objects-ragged", "empty", "ragged-with-empty", "scalar-where-array-expected", "3d", "objects-with-arrays", "spare-capacity", "nulls", "4d"}
+	p.dnames = append(p.dnames[2:], p.dnames[:2]...)
 	p.nGram = len(p.menu) * (len(p.menu) + 1)
 	p.alpha = []byte("a0.[](){}:|'=>-<")
 	p.blen = 4
